@@ -387,25 +387,31 @@ def r4_delivery(a, tier):
     if fn is None:
         raise AnalysisError('ParserEngine.set_parseinfo not found')
     PI = ('PARSEINFO',)
+    _UNDEF = object()
     for what, pi in (('parseinfo on', PI), ('parseinfo off', None)):
         got: list = []
         with_method = Stub('tatsu.contexts.ast.AST', set_parseinfo=Hook(lambda v: got.append(('method', v))))
         with_attr = Stub('tatsu.objectmodel.node.Node', parseinfo=None)
+        born_with = Stub('tatsu.objectmodel.node.Node', parseinfo=('PARSEINFO OF AN INNER RULE',))
         plain = 'text'
-        for label, node in (('node with set_parseinfo()', with_method), ('node with a parseinfo attribute', with_attr), ('a plain string', plain)):
+        for label, node in (('node with set_parseinfo()', with_method), ('node with a parseinfo attribute', with_attr),
+                            ('node whose parseinfo attribute already holds the information of an inner rule', born_with), ('a plain string', plain)):
             me = Stub(ENGINE, make_parseinfo=Hook(lambda *x, **k: pi))
-            it = ModelInterp(a, {'hasattr': Hook(lambda o, n: isinstance(o, Stub) and n in o._attrs)})
+            it = ModelInterp(a, {'hasattr': Hook(lambda o, n: isinstance(o, Stub) and n in o._attrs), 'Undefined': _UNDEF,
+                                 'getattr': Hook(lambda o, n, *d: (o._attrs[n] if isinstance(o, Stub) and n in o._attrs else (d[0] if d else None)))})
             try:
                 it.call_bound(Bound(me, fn), [node, 'rule', 3][:len(fn.node.args.args) - 1], {})
             except Unsupported as e:
                 raise AnalysisError(f'C12.R4: cannot interpret set_parseinfo: {e}') from e
             if node is with_method:
                 delivered = got[-1][1] if got else None
-            elif node is with_attr:
-                delivered = with_attr._attrs.get('parseinfo')
+            elif node is with_attr or node is born_with:
+                delivered = node._attrs.get('parseinfo')
             else:
                 delivered = None
             want = pi if node is not plain else None
+            if node is born_with and pi is None:
+                want = ('PARSEINFO OF AN INNER RULE',)
             ok = delivered == want
             rep.add({'config': what, 'node': label, 'delivered': repr(delivered), 'want': repr(want), 'ok': ok})
             if not ok:
